@@ -142,8 +142,15 @@ def _rulefile(ctx):
         for sub in K.walk_no_nested(fmt.node):
             if isinstance(sub, ast.Assign) and \
                     isinstance(sub.targets[0], ast.Name):
-                fdefs.setdefault(sub.targets[0].id, []).append(
-                    N.txt(sub.value))
+                # (a template chosen by a conditional expression: either)
+                todo = [sub.value]
+                while todo:
+                    val = todo.pop()
+                    if isinstance(val, ast.IfExp):
+                        todo += [val.body, val.orelse]
+                    else:
+                        fdefs.setdefault(sub.targets[0].id, []).append(
+                            N.txt(val))
         calls = [s for s in K.walk_no_nested(fmt.node)
                  if isinstance(s, ast.Call) and K.is_meth(s, 'format') and
                  (N.txt(K.recv(s)) == tname or
@@ -155,9 +162,20 @@ def _rulefile(ctx):
                '%s: template fields %s = formatter keywords %s' % (
                    kind, sorted(set(fields)), sorted(kws)),
                construct='%s formatter keywords' % kind)
+        def written(value):
+            # the expressions a keyword value may come from: itself, or
+            # every binding of the local it names
+            if isinstance(value, ast.Name):
+                vals = [st.value for st in K.walk_no_nested(fmt.node)
+                        if isinstance(st, ast.Assign) and any(
+                            isinstance(t, ast.Name) and t.id == value.id
+                            for t in st.targets)]
+                if vals:
+                    return vals
+            return [_through(ctx, fmt, value)]
         wild_w = sorted(k.arg for k in call.keywords if any(
             N.txt(s) in ('_ANY', "'*'")
-            for s in ast.walk(_through(ctx, fmt, k.value))))
+            for val in written(k.value) for s in ast.walk(val)))
         # regex
         rname = tname.replace('_PATTERN', '_RE')
         rexpr = mod.consts.get(rname)
